@@ -770,7 +770,7 @@ void ec2NegA(word b[], const word a[], const ec_o* ec)
 	// pre
 	ASSERT(ecIsOperable(ec));
 	ASSERT(ec2SeemsOnA(a, ec));
-	ASSERT(wwIsSameOrDisjoint(a, b, 3 * n));
+	ASSERT(wwIsSameOrDisjoint(a, b, 2 * n));
 	// b <- (xa, ya + xa)
 	qrCopy(ecX(b), ecX(a), ec->f);
 	gf2Add(ecY(b, n), ecX(a), ecY(a, n), ec->f);
